@@ -542,7 +542,8 @@ class Interp(Exec):
                 ln = len(s2.as_string())
                 st.axioms.append(z3.Length(t) == z3.If(n > 0, ln * n, 0))
                 if ln == 1:
-                    st.axioms.append(z3.InRe(t, z3.Star(z3.Re(s2))))
+                    k = z3.Int("rx!k")
+                    st.axioms.append(z3.ForAll([k], z3.Implies(z3.And(0 <= k, k < n), z3.SubString(t, k, 1) == s2)))
         return t
 
     def lin_binop(self, st, op, a, b, node):
